@@ -61,6 +61,12 @@ chk("C18", "model_checking",
     "explicit-state enumeration of replayed block histories on the real app, export -> fresh-app InitChain -> twin comparison (store diff + module queries + EVM view calls + re-export)",
     "DESIGN.md §5 C18", "seqx-replay")
 
+chk("C19", "exploration",
+    "Exhaustive products over listed finite domains on the real crypto, hd and eip712 packages: 7 (thorough 15) keys x 8 messages x 3 signature forms full verification matrix (true exactly for the signing key and the signed message or its EIP-712 rendering); all signature, public-key and sign-document single-bit flips; address and 11 codecs per key; 287 (4 538) derivations against an independent BIP-32 implementation and published vectors; 900 (1 232) sign documents = 7 base txs x 2 encodings x every single-field perturbation: pairwise-distinct EIP-712 digests and 121 560 (1 750 280) cross-document signature checks; staking-precompile typed messages, all pairs. Verification and rendering of arbitrary bytes must return a verdict, never panic.",
+    "Decides that the code binds key, message and every listed field within the alphabet; says nothing about the 2^256-key cryptographic claim. The 32-byte-digest behaviour of Sign and the ignored V byte are modelled as documented. Fee payer, granter, tip, public key and sign mode are probed informationally only.",
+    "bounded exhaustive enumeration (grid / product) with independent reference oracles (own Keccak, go-ethereum curve arithmetic, cosmos-sdk hd, embedded vectors)",
+    "DESIGN.md §5 C19", "grid")
+
 NOT_YET = "check not built yet in this round (planned, see DESIGN.md §9)"
 
 def main():
@@ -96,6 +102,8 @@ def main():
              "kind_free_text": "explicit-state BFS below the ABCI level: a state is an sdk.Context over a copy-on-write branch of the real multistore, a transition is one real keeper / EVM call on CacheContext(), dedup on a canonical hash of all stores"},
             {"name": "seqx-replay", "path": "harness/checks", "serves_properties": [k for k,v in sorted(CHECKS.items()) if v["engine"]=="seqx-replay"],
              "kind_free_text": "explicit-state search over operation sequences on the real application; a state is the block list that reaches it, successors are computed by replay on a fresh app instance; sharded over 16 worker processes"},
+            {"name": "grid", "path": "harness/checks", "serves_properties": [k for k,v in sorted(CHECKS.items()) if v["engine"]=="grid"],
+             "kind_free_text": "exhaustive product of small per-field domains evaluated on the real functions against independent reference oracles"},
             {"name": "envx", "path": "harness/checks/c01.go, harness/cmd/instr, harness/vrt/env.go", "serves_properties": [k for k,v in sorted(CHECKS.items()) if v["engine"]=="envx"],
              "kind_free_text": "deviation-bounded DFS over environment answers: a typed AST rewriter generates a -overlay that puts every map range, wall-clock read and go statement of the consensus packages behind hooks; the explorer enumerates all policies with <= B non-default answers over the sites hit"},
             {"name": "schedx", "path": "harness/vrt, harness/sched, harness/cmd/vsched, harness/cmd/instr", "serves_properties": [k for k,v in sorted(CHECKS.items()) if v["engine"]=="schedx"],
